@@ -234,21 +234,22 @@ class Enum:
 
     def block_paths(self, b):
         paths = [[]]
-        items = [s["e"] for s in b["stmts"] if s.get("k") in ("SSemi", "SExpr")]
         for s in b["stmts"]:
-            if s.get("k") == "SLet":
-                paths = [p + [("unknown", "let inside an arm", s.get("sp"))] for p in paths]
+            k = s.get("k")
+            if k == "SLet":
+                # a `let` that does not touch the output or the level: the events of evaluating its initialiser (an `if` / `match` there forks the path)
+                if "els" in s or "init" not in s or any(n.get("k") == "Path" and n.get("r") == "local" and n.get("id") in (self.out_id, self.level_id)
+                                                        for n in walk(s["init"])):
+                    alts = [[("unknown", "let inside an arm", s.get("sp"))]]
+                else:
+                    alts = self.stmt_events(s["init"])
+            elif k in ("SSemi", "SExpr"):
+                alts = self.stmt_events(s["e"])
+            else:
+                continue
+            paths = [p + a for p in paths for a in alts]
         if "expr" in b:
-            items.append(b["expr"])
-        # keep source order
-        ordered = []
-        for s in b["stmts"]:
-            if s.get("k") in ("SSemi", "SExpr"):
-                ordered.append(s["e"])
-        if "expr" in b:
-            ordered.append(b["expr"])
-        for e in ordered:
-            alts = self.stmt_events(e)
+            alts = self.stmt_events(b["expr"])
             paths = [p + a for p in paths for a in alts]
         return paths
 
@@ -437,7 +438,7 @@ def check(ctx):
                        "; ".join(why) + " [conditions %s]" % conds)
     ctx.count("paths through the character dispatch", n_paths, 9)
     ctx.__dict__["_c15_units"] = units
-    ctx.count("arms of the character dispatch", len(arms_seen), 8)
+    ctx.count("characters with an arm of their own in the character dispatch (incl. the default)", sum(len(a.split("|")) for a in arms_seen), 8)
     ctx.expect("_" in arms_seen or "$" in arms_seen, "C15.3", "default-arm", site(m), "a default arm copies every other character", "no default arm")
     if units:
         wrong = sorted({u for u in units if u != "    "})
@@ -455,13 +456,14 @@ def expected_level(label, path):
     stack = [e for e in path if e[0] == "call" and e[1] in ("SmallVec::push", "SmallVec::pop")]
     pushed_big = any("Scope::Big" in e[2] for e in stack if e[1] == "SmallVec::push")
     popped_big = any(pol and "Scope::Big" in c and "SmallVec::pop" in c for c, pol in conds)
-    if label == "'{'":
+    chars = set(label.split("|"))           # an arm may serve several characters: `'(' | '<' => ..`
+    if chars == {"'{'"}:
         return {"delta": [1]}
-    if label == "'}'":
+    if chars == {"'}'"}:
         return {"delta": [-1], "before_ch": True}
-    if label in ("'('", "'<'"):
+    if chars <= {"'('", "'<'"}:
         return {"delta": [1] if pushed_big else []}
-    if label in ("')'", "'>'"):
+    if chars <= {"')'", "'>'"}:
         return {"delta": [-1] if popped_big else [], "before_ch": True}
     return {"delta": []}
 
